@@ -125,12 +125,32 @@ def parse_vspec(path):
             elif key in ("before", "after"):
                 cur_block = Block(key, _unquote(rest), ln)
                 cur_item.blocks.append(cur_block)
+            elif key == "rewrite_ws":
+                # like @@rewrite, but every blank in the pattern matches any run of whitespace
+                # (including none and line breaks): the same token sequence laid out differently by
+                # rustfmt still matches.  The replacement is one line; the line breaks of the matched
+                # text are re-appended so that the line count is preserved.
+                m = re.match(r'(\S+)\s+(\d+)\s+"(.*)"\s+=>\s+"(.*)"\s*$', rest)
+                if not m:
+                    raise SystemExit("%s:%d: bad @@rewrite_ws" % (path, ln))
+                pat = m.group(3).replace('\\"', '"')
+                # (comments between the tokens count as whitespace)
+                rx = "(?:\\s|//[^\\n]*\\n)*".join(re.escape(tok) for tok in pat.split(" "))
+                cur_item.rewrites.append((m.group(1), int(m.group(2)), re.compile(rx), m.group(4).replace('\\"', '"'), ln))
             elif key == "rewrite":
-                m = re.match(r'(\S+)\s+(\d+\??)\s+"(.*)"\s+=>\s+"(.*)"\s*$', rest)
+                m = re.match(r'(\S+)\s+(\d+\??|\*)\s+"(.*)"\s+=>\s+"(.*)"\s*$', rest)
                 if not m:
                     raise SystemExit("%s:%d: bad @@rewrite" % (path, ln))
                 want = m.group(2)
-                if want.endswith("?"):
+                if want == "*":
+                    # any number of times - only for R5 (error text / error constructors -> opaque
+                    # value): how many error sites a function has is irrelevant to every property
+                    # ... and for R18 (a comparison of two references written on the pointees: `a == b`
+                    # -> `**a == **b`, the same comparison by std's reference / Box impls)
+                    if m.group(1) not in ("R5", "R18"):
+                        raise SystemExit("%s:%d: count * only allowed for R5 / R18" % (path, ln))
+                    want = 10 ** 9
+                elif want.endswith("?"):
                     # "N?": the rewrite applies N times or not at all.  Only for R5 (error
                     # *text* -> opaque value): when the text is gone there is nothing to make opaque.
                     if m.group(1) != "R5":
@@ -431,6 +451,12 @@ def emit_item(spec, repo, out, stats, vspec_path, cache):
     for rid, want, old, new, ln in spec.rewrites:
         total = 0
         for i, p in enumerate(pieces):
+            if p[0] == "src" and not isinstance(old, str):
+                hits = list(old.finditer(p[1]))
+                if hits:
+                    total += len(hits)
+                    pieces[i] = ("src", old.sub(lambda mm: new + "\n" * mm.group(0).count("\n"), p[1]), p[2])
+                continue
             if p[0] == "src":
                 c = p[1].count(old)
                 if c:
@@ -438,8 +464,8 @@ def emit_item(spec, repo, out, stats, vspec_path, cache):
                     if old.count("\n") != new.count("\n"):
                         raise SystemExit("%s:%d: rewrite must preserve line count" % (vspec_path, ln))
                     pieces[i] = ("src", p[1].replace(old, new), p[2])
-        if total != want and not (want < 0 and total in (0, -want)):
-            raise Lost("%s: rewrite %s %r applied %d times, expected %d" % (fn, rid, old, total, want))
+        if total != want and not (want < 0 and total in (0, -want)) and want != 10 ** 9:
+            raise Lost("%s: rewrite %s %r applied %d times, expected %d" % (fn, rid, old if isinstance(old, str) else old.pattern, total, want))
         stats["rewrites"].setdefault(rid, 0)
         stats["rewrites"][rid] += total
     # R6 (automatic): derive lines are dropped from extracted datatypes unless the item
